@@ -42,6 +42,8 @@ class Comment(TypedExpression):
             if "\n" in inner:
                 indent_prefix = " " * node.start_point.column
                 lines = inner.split("\n")
+                # ... and one before the closer when it shares the last line.
+                lines[-1] = lines[-1].rstrip(" ")
                 # The renderer puts one space after the opener itself.
                 normalized = [lines[0].lstrip(" ")]
                 for line in lines[1:]:
